@@ -10,7 +10,7 @@ filter that disappears changes the tables themselves and is judged by the proper
 from .core import sym, cfg as cfgmod
 
 ITER_LOSSY = {"filter", "filter_map", "take", "take_while", "skip", "skip_while", "step_by", "map_while", "find", "find_map", "nth", "last",
-              "flatten", "flat_map", "zip", "rev", "min_by_key", "max_by_key", "min", "max", "dedup", "peekable"}
+              "flatten", "flat_map", "zip", "rev", "min_by_key", "max_by_key", "min", "max", "dedup", "next_if", "next_if_eq"}
 COLL_LOSSY = {"retain", "retain_mut", "drain", "truncate", "pop", "pop_first", "pop_last", "split_off", "dedup", "dedup_by_key", "clear", "swap_remove"}
 
 
